@@ -222,16 +222,16 @@ theorem C17_duration (dd : List α) :
 
 /-! ## CAGR, Sharpe, Sortino -/
 
-/-- C17 (definitions): CAGR is `last cumulative return ^ (1 / (n / P)) − 1` with `1 / (n / P) = P / n`;
+/-- C17 (definitions): CAGR is `last cumulative return ^ (1 / (n / P)) − 1` with `1 / (n / P) = P / n`, for any number of periods `P` (an integer or not: `P` is used as it is, never truncated);
 Sharpe is `sqrt P · mean / sqrt (population variance)`; Sortino uses the population variance of the negative
 returns only — for every interpretation of `sqrt` and `pow`. -/
-theorem C17_defs [TransOps α] (cum rs : List α) (P : Nat) :
-    createCagr cum P = TransOps.pow (cum.getLastD 0) (1 / ((cum.length : α) / (P : α))) - 1 ∧
-    (1 / ((cum.length : α) / (P : α)) = (P : α) / (cum.length : α)) ∧
+theorem C17_defs [TransOps α] (cum rs : List α) (P : α) :
+    createCagr cum P = TransOps.pow (cum.getLastD 0) (1 / ((cum.length : α) / P)) - 1 ∧
+    (1 / ((cum.length : α) / P) = P / (cum.length : α)) ∧
     createSharpe rs P =
-      TransOps.sqrt (P : α) * (rs.sum / (rs.length : α)) / TransOps.sqrt (popVar rs) ∧
+      TransOps.sqrt P * (rs.sum / (rs.length : α)) / TransOps.sqrt (popVar rs) ∧
     createSortino rs P =
-      TransOps.sqrt (P : α) * (rs.sum / (rs.length : α)) / TransOps.sqrt (popVar (rs.filter (· < 0))) ∧
+      TransOps.sqrt P * (rs.sum / (rs.length : α)) / TransOps.sqrt (popVar (rs.filter (· < 0))) ∧
     popVar rs = (rs.map fun x => (x - rs.sum / (rs.length : α)) ^ 2).sum / (rs.length : α) := by
   refine ⟨?_, one_div_div _ _, ?_, ?_, Sig.popVar_eq rs⟩
   · simp [createCagr]
@@ -246,7 +246,7 @@ theorem C17_scale_ne (k : α) (hk : k ≠ 0) (eq : List α) : returnsOf (eq.map 
 
 /-- C17 (scale): multiplying the equity curve by a positive constant leaves the returns, and with them every
 statistic (all are functions of the returns), unchanged. -/
-theorem C17_scale [TransOps α] (k : α) (hk : 0 < k) (eq : List α) (P : Nat) (p : Period) (dates : List Int) :
+theorem C17_scale [TransOps α] (k : α) (hk : 0 < k) (eq : List α) (P : α) (p : Period) (dates : List Int) :
     returnsOf (eq.map (k * ·)) = returnsOf eq ∧
     cumReturnsOf (returnsOf (eq.map (k * ·))) = cumReturnsOf (returnsOf eq) ∧
     createDrawdowns (cumReturnsOf (returnsOf (eq.map (k * ·)))) =
